@@ -12,31 +12,34 @@ Local Open Scope nat_scope.
 Definition noP : string -> Prop := fun _ => True.
 
 (* ---- same operator ------------------------------------------------------------------------------------------------------ *)
-Theorem transpile_sem_proof d N c out : In d devices -> Forall wf_gate c -> Forall (fun g => in_range N g = true) c ->
-  transpile d N c = Ok out ->
+Lemma topology_cases d Ndev M pre mid : run_pass d Ndev M PTopology pre = Ok mid ->
+  mid = pre \/ topo_pass Route.Linear M pre = Ok mid \/ topo_pass Route.Circular M pre = Ok mid.
+Proof.
+  unfold run_pass. intros H. destruct (dtopo d); [left; injection H as <-; reflexivity| |];
+    (destruct (unrouted_ok d pre); [|discriminate]); destruct (route_kind d Ndev M); auto; left; injection H as <-; reflexivity.
+Qed.
+
+Theorem transpile_sem_proof d Ndev M c out : In d devices -> Forall wf_gate c -> Forall (fun g => in_range M g = true) c ->
+  transpile_on d Ndev M c = Ok out ->
   forall (R : PhaseRing) (env : nat -> atoms R), sem (cden R env out) = sem (cden R env c).
 Proof.
   intros Hd Hw Hr H R env. destruct (dev_facts d Hd) as [lst [keep [El [Hp [Hv [Hdv [Hal Hm]]]]]]].
   assert (HPc : Forall (fun g => noP (gname g)) c) by (apply Forall_forall; intros; exact I).
-  rewrite transpile_unfold in H. unfold run_pass in H. rewrite El in H.
+  rewrite transpile_unfold, pass_width in H. destruct (Nat.ltb Ndev M); [discriminate|]. cbn [rbind] in H.
+  rewrite (pass_expand d Ndev M lst El) in H.
   destruct (expand (BList lst) c) as [pre|] eqn:E1; [|discriminate]. cbn [rbind] in H.
-  pose proof (expand_ok noP lst keep Hp Hv Hdv Hal N c pre Hw HPc Hr E1) as Hpre.
+  pose proof (expand_ok noP lst keep Hp Hv Hdv Hal M c pre Hw HPc Hr E1) as Hpre.
   pose proof (expand_sem lst keep Hp Hal c pre Hw E1 R env) as S1.
-  assert (Hmid : exists mid, (match dtopo d with TopoNone => Ok pre | TopoLinear => topo_pass Route.Linear N pre
-                               | TopoCircular => topo_pass Route.Circular N pre end) = Ok mid /\
-                 Forall (midok noP (cfg_of lst) N) mid /\ sem (cden R env mid) = sem (cden R env pre)).
-  { destruct (dtopo d).
-    - exists pre. auto.
-    - destruct (topo_pass Route.Linear N pre) as [mid|] eqn:E2; [|cbn [rbind] in H; discriminate].
-      exists mid. split; [reflexivity|]. split.
-      + pose proof (topo_ok noP lst I Route.Linear N pre mid Hpre E2) as X. eapply Forall_impl; [|exact X]. intros x [Hx _]. exact Hx.
-      + exact (topo_sem noP lst Hdv I R env Route.Linear N pre mid Hpre E2).
-    - destruct (topo_pass Route.Circular N pre) as [mid|] eqn:E2; [|cbn [rbind] in H; discriminate].
-      exists mid. split; [reflexivity|]. split.
-      + pose proof (topo_ok noP lst I Route.Circular N pre mid Hpre E2) as X. eapply Forall_impl; [|exact X]. intros x [Hx _]. exact Hx.
-      + exact (topo_sem noP lst Hdv I R env Route.Circular N pre mid Hpre E2). }
-  destruct Hmid as [mid [E2 [Hmid S2]]]. rewrite E2 in H. cbn [rbind] in H.
-  rewrite (final_sem noP lst keep Hp Hdv Hal N mid out Hmid H R env). rewrite S2. exact S1.
+  destruct (run_pass d Ndev M PTopology pre) as [mid|] eqn:E2; [|discriminate]. cbn [rbind] in H.
+  rewrite (pass_resolve d Ndev M lst El) in H.
+  assert (Hmid : Forall (midok noP (cfg_of lst) M) mid /\ sem (cden R env mid) = sem (cden R env pre)).
+  { destruct (topology_cases d Ndev M pre mid E2) as [->|[E|E]]; [auto| |]; split.
+    - pose proof (topo_ok noP lst I Route.Linear M pre mid Hpre E) as X. eapply Forall_impl; [|exact X]. intros x [Hx _]. exact Hx.
+    - exact (topo_sem noP lst Hdv I R env Route.Linear M pre mid Hpre E).
+    - pose proof (topo_ok noP lst I Route.Circular M pre mid Hpre E) as X. eapply Forall_impl; [|exact X]. intros x [Hx _]. exact Hx.
+    - exact (topo_sem noP lst Hdv I R env Route.Circular M pre mid Hpre E). }
+  destruct Hmid as [Hmid S2].
+  rewrite (final_sem noP lst keep Hp Hdv Hal M mid out Hmid H R env). rewrite S2. exact S1.
 Qed.
 
 (* ---- refusals ------------------------------------------------------------------------------------------------------------ *)
@@ -89,10 +92,10 @@ Proof.
   - apply in_concat. exists [toR i g]. split; [exact Hpiece|left; reflexivity].
 Qed.
 
-Theorem transpile_refuses_proof d N c g : In d devices -> In g c ->
+Theorem transpile_refuses_proof d Ndev M c g : In d devices -> In g c ->
   mem (gname g) pauli_names = false -> find_rule (gname g) = None ->
   (forall lst, dnative d = Some lst -> mem (gname g) lst = false) ->
-  transpile d N c = Error.
+  transpile_on d Ndev M c = Error.
 Proof.
   intros Hd Hin Hp Hf Hn. destruct (dev_facts d Hd) as [lst [keep [El [Hpb [Hv [Hdv [Hal Hm]]]]]]].
   specialize (Hn lst El).
@@ -100,7 +103,8 @@ Proof.
   assert (Hc2 : mem (gname g) (c2q (cfg_of lst)) = false).
   { destruct (mem (gname g) (c2q (cfg_of lst))) eqn:E; [|reflexivity]. rewrite (Hm _ (or_introl E)) in Hn. discriminate. }
   assert (Hh : handled_name (gname g) = false) by (apply norule_unhandled; exact Hf).
-  rewrite transpile_unfold. unfold run_pass. rewrite El.
+  rewrite transpile_unfold, pass_width. destruct (Nat.ltb Ndev M); [reflexivity|]. cbn [rbind].
+  rewrite (pass_expand d Ndev M lst El).
   destruct (expand (BList lst) c) as [pre|] eqn:E1; [|reflexivity]. cbn [rbind].
   assert (Hpre : In g pre).
   { unfold expand in E1. eapply rflat_in_keep; [exact Hin| |exact E1].
@@ -111,18 +115,46 @@ Proof.
     unfold expand in E1. rewrite (rflat_error_in (expand_gate (BList lst)) g c Hin Ee) in E1. discriminate. }
   assert (Hfin : forall mid, In g mid -> resolve (BList lst) mid = Error)
     by (intros mid Hmid; apply (resolve_refuses_proof (BList lst) mid (cfg_of lst) keep g Hpb); auto).
-  destruct (dtopo d).
-  - cbn [rbind]. apply Hfin. exact Hpre.
-  - destruct (topo_pass Route.Linear N pre) as [mid|] eqn:E2; [|reflexivity]. cbn [rbind]. apply Hfin. eapply topo_keeps; eauto.
-  - destruct (topo_pass Route.Circular N pre) as [mid|] eqn:E2; [|reflexivity]. cbn [rbind]. apply Hfin. eapply topo_keeps; eauto.
+  destruct (run_pass d Ndev M PTopology pre) as [mid|] eqn:E2; [|reflexivity]. cbn [rbind].
+  rewrite (pass_resolve d Ndev M lst El). apply Hfin.
+  destruct (topology_cases d Ndev M pre mid E2) as [->|[E|E]]; [exact Hpre| |]; eapply topo_keeps; eauto.
 Qed.
 
-Theorem transpile_rejects_measurement_proof d N ops : In d devices -> In OpMeasure ops -> transpile_ops d N ops = Error.
+Theorem transpile_rejects_measurement_proof d Ndev M ops : In d devices -> In OpMeasure ops -> transpile_ops d Ndev M ops = Error.
 Proof.
   intros Hd Hin. destruct (dev_facts d Hd) as [lst [keep [El _]]]. unfold transpile_ops.
   assert (E : existsb (fun o => match o with OpMeasure => true | _ => false end) ops = true)
     by (apply existsb_exists; exists OpMeasure; auto).
   rewrite E, El. reflexivity.
+Qed.
+
+(* a circuit wider than the processor is refused, whatever it holds *)
+Theorem transpile_refuses_wide_proof d Ndev M c : Ndev < M -> transpile_on d Ndev M c = Error.
+Proof.
+  intros H. rewrite transpile_unfold, pass_width. replace (Nat.ltb Ndev M) with true by (symmetry; apply Nat.ltb_lt; exact H). reflexivity.
+Qed.
+
+(* a gate the topology map does not route (RZX on SCQubits) on targets that are not neighbours is refused; [g] has no
+   controls, so that it reaches the topology map unchanged *)
+Theorem transpile_refuses_unrouted_proof d Ndev M c g : In d devices -> In g c -> mem (gname g) (dunrouted d) = true ->
+  gcontrols g = [] -> List.length (gtargets g) <= 2 -> near_targets g = false -> transpile_on d Ndev M c = Error.
+Proof.
+  intros Hd Hin Hu Hc Hl Hn. destruct (dev_facts d Hd) as [lst [keep [El _]]].
+  rewrite transpile_unfold, pass_width. destruct (Nat.ltb Ndev M); [reflexivity|]. cbn [rbind].
+  rewrite (pass_expand d Ndev M lst El).
+  destruct (expand (BList lst) c) as [pre|] eqn:E1; [|reflexivity]. cbn [rbind].
+  assert (Hpre : In g pre).
+  { unfold expand in E1. eapply rflat_in_keep; [exact Hin| |exact E1]. unfold expand_gate, big, nqubits.
+    rewrite Hc, threshold_two. cbn [List.length Nat.add]. replace (Nat.ltb 2 (List.length (gtargets g))) with false; [reflexivity|].
+    symmetry. apply Nat.ltb_ge. exact Hl. }
+  assert (Hbad : unrouted_ok d pre = false).
+  { unfold unrouted_ok. apply not_true_iff_false. intros K. rewrite forallb_forall in K. specialize (K g Hpre).
+    rewrite Hu, Hn in K. discriminate. }
+  pose proof (table_facts d Hd) as T. unfold table_ok in T. apply andb_prop in T. destruct T as [T _]. apply andb_prop in T. destruct T as [T _].
+  assert (E : run_pass d Ndev M PTopology pre = Error).
+  { unfold run_pass. rewrite Hbad. destruct (dtopo d); [|reflexivity|reflexivity].
+    apply andb_prop in T. destruct T as [_ T]. destruct (dunrouted d); [discriminate Hu|discriminate T]. }
+  rewrite E. reflexivity.
 Qed.
 
 (* ---- the code as found (topology map first, decomposition afterwards) violates the coupling clause ------------------------ *)
@@ -135,7 +167,7 @@ Proof.
 Qed.
 
 Definition unfixed_bad (d : device) (N : nat) : bool :=
-  match transpile_unfixed d N toffoli_012 with
+  match transpile_unfixed d N N toffoli_012 with
   | Ok out => forallb (native_gate d) out && negb (forallb (coupled_gate (dtopo d) N) out)
   | Error => false
   end.
@@ -144,7 +176,7 @@ Lemma unfixed_refuted : unfixed_bad dev_LinearSpinChain 3 = true /\ unfixed_bad 
 Proof. repeat split; vm_compute; reflexivity. Qed.
 
 Definition fixed_good (d : device) (N : nat) : bool :=
-  match transpile d N toffoli_012 with
+  match transpile_on d N N toffoli_012 with
   | Ok out => forallb (native_gate d) out && forallb (coupled_gate (dtopo d) N) out
   | Error => false
   end.
@@ -158,8 +190,6 @@ Definition hardware_topology (n : string) : option topo_kind :=
   else if String.eqb n "SCQubits" then Some TopoLinear                 (* "interaction is possible only between adjacent qubits" *)
   else if String.eqb n "DispersiveCavityQED" then Some TopoNone        (* any pair, through the cavity *)
   else None.
-Definition topo_eqb (a b : topo_kind) : bool :=
-  match a, b with TopoNone, TopoNone | TopoLinear, TopoLinear | TopoCircular, TopoCircular => true | _, _ => false end.
 (* the topology map each processor class calls is the one of its hardware *)
 Definition devices_match : bool :=
   forallb (fun d => match hardware_topology (dname d) with Some t => topo_eqb t (dtopo d) | None => false end) devices &&
